@@ -24,10 +24,11 @@ class M:
     `reach=True` also matches calls to workspace bodies that transitively reach such a callee;
     `where` = extra predicate (body, block, term) -> bool."""
 
-    def __init__(self, pat, reach=False, where=None, label=None):
+    def __init__(self, pat, reach=False, where=None, label=None, closure_filter=None):
         self.rx = re.compile(pat)
         self.reach = reach
         self.where = where
+        self.closure_filter = closure_filter   # (closure Body) -> bool: follow this closure argument?
         self.label = label or pat
 
     def __repr__(self):
@@ -83,6 +84,16 @@ class Order:
                     if any(m.rx.fullmatch(n) for n in self.reach(g)):
                         ok = True
                         break
+            elif kind == "external":
+                # closures handed to an external callee (rayon::join, iterator adaptors) run inside it
+                for a in t["args"]:
+                    pl = op_place(a)
+                    if pl is None:
+                        continue
+                    for K in body.locals[pl["l"]].get("closures", []):
+                        if K in self.P.bodies and (m.closure_filter is None or m.closure_filter(self.P.bodies[K])) \
+                                and (any(m.rx.fullmatch(n) for n in self.reach(K))):
+                            ok = True
         if ok and m.where is not None:
             ok = bool(m.where(body, b, t))
         return ok
@@ -175,6 +186,36 @@ class Order:
                     may[b] = v
                     changed = True
         return [b for b in self.sites(body, bm) if may[b]]
+
+    def typestate(self, body, init, gen_blocks, kill_blocks):
+        """must-analysis of a boolean fact: True after a gen site, False after a kill site, AND at
+        joins, `init` at entry.  -> value at the *terminator* of each block (before its own effect)."""
+        rpo = body.reachable()
+        preds = body.preds()
+        gen, kill = set(gen_blocks), set(kill_blocks)
+
+        def out(b, v):
+            if b in kill:
+                return False
+            if b in gen:
+                return True
+            return v
+        inn = {b: True for b in rpo}
+        inn[0] = init
+        changed = True
+        while changed:
+            changed = False
+            for b in rpo:
+                if b == 0:
+                    continue
+                v = True
+                for p in preds[b]:
+                    if p in inn:
+                        v = v and out(p, inn[p])
+                if v != inn[b]:
+                    inn[b] = v
+                    changed = True
+        return inn
 
     def can_reach(self, body, b, targets):
         """True iff some block in `targets` is reachable from the successors of b."""
